@@ -1,6 +1,8 @@
 (* C14 — FIFOs, sockets and character devices are recreated as identical nodes. *)
 From XcpModel Require Import Base Meta.
 From XcpProofs Require Import MetaProofs.
+From XcpModel Require Import Extracted.
+From XcpProofs Require Import ExtractedOk.
 
 (* same type, permission bits limited by the umask, same device number, for
    all kinds, modes, umasks, majors and minors *)
@@ -28,6 +30,12 @@ Proof. exact special_worker_spec. Qed.
 Example C14_nonvacuous : copy_node 18 (mkNode 5 420 (300 * 1048576 + 70000)) = mkNode 5 420 (300 * 1048576 + 70000).
 Proof. vm_compute. reflexivity. Qed.
 
+(* ---- tie to the current source (translator): the model's definitions used above are
+   EQUAL to what /verif/xlate extracts from the repository on this run ---- *)
+Theorem C14_src_device_number_is_rdev : x_copy_node_uses_rdev = 1%N.
+Proof. exact x_copy_node_uses_rdev_ok. Qed.
+
 Print Assumptions C14_node_identical.
 Print Assumptions C14_classification.
 Print Assumptions C14_replace_unless_noclobber.
+Print Assumptions C14_src_device_number_is_rdev.
